@@ -43,6 +43,24 @@ def chain(d):
     return out, d
 
 
+def _mentions(t, atom):
+    seen = set()
+    stack = [t]
+    while stack:
+        x = stack.pop()
+        if not isinstance(x, T.T) or x.id in seen:
+            continue
+        if x is atom:
+            return True
+        seen.add(x.id)
+        if x.op == "ring":
+            for mono, _ in x.aux:
+                for i in mono:
+                    stack.append(T._ATOM[i])
+        stack.extend(x.args)
+    return False
+
+
 def resolve_all(ev, st, t):
     return LP.resolve(ev, st, t)
 
@@ -84,7 +102,7 @@ def run(chk, tier):
     # the guard that says "still inside the probe loop" (an in-loop exit), and the four post-loop guards in the documented order;
     # the order inside the normal form is immaterial, each guard is recognised by its shape and by the error it returns alone
     conds = [c for c, _ in ch]
-    lts = [c for c in conds if c.op == "ult" and c.args[1].op == "const" and c.args[1].aux == 400]
+    lts = [c for c in conds if c.op == "ult" and c.args[1].op == "const" and c.args[1].aux == 400 and c.args[0].op in ("sym", "rng")]
     lt = lts[0] if len(lts) == 1 else conds[0]
     ivar = lt.args[0] if lt.op == "ult" and lt.args[1].op == "const" and lt.args[1].aux == 400 else None
     rest = [c for c in conds if c is not lt]
@@ -113,12 +131,26 @@ def run(chk, tier):
         ("TooManyStuck", "ult", 0, TESTLOOP * 9 // 10, "count_stuck > 270 (90% of 300)"),
     ]
     vars_ = []
+    loopvars = {t_: rng_ for n_, wh_, init_, t_, rng_ in rec.vars if isinstance(t_, T.T)}
     for (name, op, cpos, cval, text), c in zip(shapes, g):
         # the backwards counter may be a signed or an unsigned integer: `> 3` is slt resp. ult with the constant on the left
         shape = (c.op == op or (name == "NotMonotonic" and c.op == "ult")) and c.args[cpos].op == "const"
         okg = shape and c.args[cpos].aux == cval
         v = c.args[1 - cpos] if shape else None
         okg = okg and v is not None and v.op in ("sym", "rng")
+        if not okg and name != "TinyVariations":
+            # any other way of writing the same threshold (`>= 4`, `c * 10 > 300 * 9`, ...): the guard mentions one counter with a
+            # small interval invariant, and it is evaluated for every value of that interval
+            cands = [t_ for t_ in loopvars if loopvars[t_] and loopvars[t_][1] <= 4096 and t_.w > 1 and _mentions(c, t_)]
+            if len(cands) == 1:
+                v = cands[0]
+                lo_, hi_ = loopvars[v]
+                okg = True
+                for k_ in range(lo_, hi_ + 1):
+                    val = T.subst(c, {v: T.const(k_, v.w)})
+                    if val.op != "const" or bool(val.aux) != (k_ > cval):
+                        okg = False
+                        break
         vars_.append(v)
         chk.ob("R3", "guard %s|%s" % (name, text), okg, "found %s" % T.show(c, 4), where=where,
                sample={"guard": name, "condition": T.show(c, 4)})
@@ -169,7 +201,7 @@ def run(chk, tier):
             cond, nxt, world, assume = rec.conts[0]
             s3 = st.fork()
             s3.assume = tuple(assume)
-            clear = [a for a in [T.ult(ivar, T.const(100, 64))]]
+            clear = [a for a in [T.ult(ivar, T.const(100, ivar.w))]]
             add_assume(s3, T.bnot(clear[0]))
             for a_ in (lt, T.bnot(z1), T.bnot(z4), T.bnot(zd)):
                 add_assume(s3, a_)
